@@ -78,6 +78,10 @@ from .common_node import key_fields_flat
 
 def run(ctx: Ctx):
     model = ctx.model
+    from .common_node import names_resolve
+    names_resolve(ctx, "C17-RN")
+    from .common_node import single_transmit_gate
+    single_transmit_gate(ctx, "C17-R7")
     R = RecvModel(ctx)
     g, at, msg, conn = R.g, R.at, R.msg, R.conn
     nc = R.nc
